@@ -12,11 +12,13 @@ import sys
 
 pid, k = sys.argv[1], sys.argv[2]
 extra = sys.argv[3:]
-src = '/tmp/seed_%s/out' % pid
+PREFIX = os.environ.get('SEED_PREFIX', '/tmp/seed_')
+TAG = os.environ.get('SEED_TAG', '')
+src = '%s%s/out' % (PREFIX, pid)
 patch = os.path.join(src, 'seed%s.diff' % k)
 demo = os.path.join(src, 'demo%s.py' % k)
 note = os.path.join(src, 'note%s.txt' % k)
-wt = '/tmp/conf_%s_%s' % (pid, k)
+wt = '/tmp/conf_%s_%s%s' % (pid, TAG, k)
 
 
 def sh(cmd, **kw):
@@ -66,7 +68,7 @@ finally:
     sh('git -C /repo checkout -- .')
 assert not sh('git -C /repo status --short').stdout.strip()
 meta['detected_by'] = [c for c, v in meta['checks'].items() if v['exit'] == 1]
-out = '/verif/seeded/%s-%s' % (pid, k)
+out = '/verif/seeded/%s-%s%s' % (pid, TAG, k)
 os.makedirs(out, exist_ok=True)
 shutil.copy(patch, os.path.join(out, 'patch.diff'))
 shutil.copy(demo, os.path.join(out, 'demo.py'))
